@@ -287,6 +287,8 @@ def run_property(pid, tier, seed, replay_path=None):
     with open(os.path.join(evdir, pid + ".json"), "w") as f:
         json.dump(evidence, f, indent=1, sort_keys=True, default=repr)
 
+    if not samples and not failures:
+        raise HarnessError("no sample cases were recorded")
     floor = getattr(mod, "MIN_NONTRIVIAL", 2)
     if not failures and len(nontrivial) < floor:
         raise HarnessError(f"generator degenerate: only {len(nontrivial)} distinct non-trivial cases")
